@@ -67,6 +67,15 @@ fn main() {
             }
             props::dispatch_replay(&id, &PathBuf::from(&positional[0]), &scratch, &cfg)
         }
+        "decode" => {
+            // sds-verif decode <ID> <artifact> <out.json> [signature] [message]
+            if positional.len() < 2 {
+                usage();
+            }
+            let sig = positional.get(2).cloned().unwrap_or_else(|| "fuzz-crash".to_string());
+            let msg = positional.get(3).cloned().unwrap_or_else(|| "the fuzz target died on this input".to_string());
+            props::dispatch_decode(&id, &PathBuf::from(&positional[0]), &PathBuf::from(&positional[1]), &sig, &msg)
+        }
         _ => usage(),
     };
     let _ = engine::take_last_panic();
